@@ -76,6 +76,14 @@ func NewFloatFromString(typ *types.FloatType, s string) (*Float, error) {
 			// > hexadecimal digits.
 			hex := strings.TrimPrefix(s, "0xK")
 			const hexLen = 8
+			// A literal of fewer than 20 digits is read as LLVM reads it: (up to)
+			// four digits of sign and exponent, followed by the significand.
+			if len(hex) < hexLen/2 {
+				hex = strings.Repeat("0", hexLen/2-len(hex)) + hex
+			}
+			if len(hex) == hexLen/2 {
+				hex += "0"
+			}
 			part1 := hex[:hexLen/2]
 			part2 := hex[hexLen/2:]
 			se, err := strconv.ParseUint(part1, 16, 16)
@@ -97,6 +105,11 @@ func NewFloatFromString(typ *types.FloatType, s string) (*Float, error) {
 			// > hexadecimal digits.
 			hex := strings.TrimPrefix(s, "0xL")
 			const maxHexLen = 32
+			if n := len(hex); n >= maxHexLen/2 && n < maxHexLen {
+				// As in LLVM, the first 16 digits hold the low 64 bits and the
+				// remaining digits the high 64 bits.
+				hex = hex[:maxHexLen/2] + strings.Repeat("0", maxHexLen-n) + hex[maxHexLen/2:]
+			}
 			if len(hex) < maxHexLen {
 				// pad with leading zeroes (e.g. for case like `0xL01`)
 				hex = strings.Repeat("0", maxHexLen-len(hex)) + hex
@@ -124,6 +137,14 @@ func NewFloatFromString(typ *types.FloatType, s string) (*Float, error) {
 			// > represented by 0xM followed by 32 hexadecimal digits.
 			hex := strings.TrimPrefix(s, "0xM")
 			const maxHexLen = 32
+			if n := len(hex); n < maxHexLen/2 {
+				// As in LLVM, fewer than 16 digits denote the second double.
+				hex = strings.Repeat("0", maxHexLen-n) + hex
+			} else if n < maxHexLen {
+				// The first 16 digits hold the first double, the remaining digits
+				// the second double.
+				hex = hex[:maxHexLen/2] + strings.Repeat("0", maxHexLen-n) + hex[maxHexLen/2:]
+			}
 			part1 := hex[:maxHexLen/2]
 			part2 := hex[maxHexLen/2:]
 			a, err := strconv.ParseUint(part1, 16, 64)
